@@ -12,7 +12,6 @@ import (
 	"github.com/prometheus/prometheus/model/labels"
 	"github.com/prometheus/prometheus/promql/parser"
 
-	"github.com/thanos-community/promql-engine/execution/function"
 	"github.com/thanos-community/promql-engine/execution/model"
 	"github.com/thanos-community/promql-engine/execution/parse"
 )
@@ -234,52 +233,58 @@ func makeAccumulatorFunc(expr parser.ItemType) (newAccumulatorFunc, error) {
 	case "stddev":
 		return func() *accumulator {
 			var count float64
-			var mean, cMean float64
-			var aux, cAux float64
+			var mean, value float64
 			var hasValue bool
 			return &accumulator{
 				AddFunc: func(v float64) {
-					hasValue = true
+					if !hasValue {
+						hasValue = true
+						count = 1
+						mean = v
+						value = 0
+						return
+					}
 					count++
-					delta := v - (mean + cMean)
-					mean, cMean = function.KahanSumInc(delta/count, mean, cMean)
-					aux, cAux = function.KahanSumInc(delta*(v-(mean+cMean)), aux, cAux)
+					delta := v - mean
+					mean += delta / count
+					value += delta * (v - mean)
 				},
-				ValueFunc: func() float64 { return math.Sqrt((aux + cAux) / count) },
+				ValueFunc: func() float64 { return math.Sqrt(value / count) },
 				HasValue:  func() bool { return hasValue },
 				Reset: func(_ float64) {
 					hasValue = false
 					count = 0
 					mean = 0
-					cMean = 0
-					aux = 0
-					cAux = 0
+					value = 0
 				},
 			}
 		}, nil
 	case "stdvar":
 		return func() *accumulator {
 			var count float64
-			var mean, cMean float64
-			var aux, cAux float64
+			var mean, value float64
 			var hasValue bool
 			return &accumulator{
 				AddFunc: func(v float64) {
-					hasValue = true
+					if !hasValue {
+						hasValue = true
+						count = 1
+						mean = v
+						value = 0
+						return
+					}
 					count++
-					delta := v - (mean + cMean)
-					mean, cMean = function.KahanSumInc(delta/count, mean, cMean)
-					aux, cAux = function.KahanSumInc(delta*(v-(mean+cMean)), aux, cAux)
+					delta := v - mean
+					mean += delta / count
+					value += delta * (v - mean)
 				},
-				ValueFunc: func() float64 { return (aux + cAux) / count },
+				ValueFunc: func() float64 { return value / count },
 				HasValue:  func() bool { return hasValue },
 				Reset: func(_ float64) {
 					hasValue = false
 					count = 0
 					mean = 0
-					cMean = 0
-					aux = 0
-					cAux = 0
+					value = 0
 				},
 			}
 		}, nil
